@@ -24,6 +24,7 @@ pub mod verif_hooks {
     pub use super::parse_atom::{decode_size, decode_size_with_offset, parse_atom, parse_path};
     pub use super::ser::{LimitedWriter, node_to_stream};
     pub use super::serialized_length::atom_length_bits;
+    pub use super::tools::verif_is_canonical_atom as is_canonical_atom;
     pub use super::write_atom::verif_write_atom_encoding_prefix_with_size as write_atom_encoding_prefix_with_size;
 }
 
